@@ -11,11 +11,12 @@ variable {γ : Type}
 @[simp] theorem select_cols (cs : List Name) (F : Frame γ) : (F.select cs).cols = cs := rfl
 
 theorem select_val_mem {cs : List Name} {F : Frame γ} {c : Name} (h : c ∈ cs) : (F.select cs).val c = F.val c := by
-  simp [Frame.select, List.contains_iff_mem.mpr h]
+  show (if cs.contains c = true then F.val c else none) = F.val c
+  rw [if_pos (List.contains_iff_mem.mpr h)]
 
 theorem select_val_not_mem {cs : List Name} {F : Frame γ} {c : Name} (h : c ∉ cs) : (F.select cs).val c = none := by
-  have : cs.contains c = false := by simpa using h
-  simp [Frame.select, this]
+  show (if cs.contains c = true then F.val c else none) = none
+  rw [if_neg (fun hh => h (List.contains_iff_mem.mp hh))]
 
 /-- `op(F)[P]` -/
 def evalOrig (op : Frame γ → Frame γ) (P : List Name) (F : Frame γ) : Frame γ := (op F).select P
@@ -32,6 +33,24 @@ theorem evalRw_keep1 (op : Frame γ → Frame γ) (P : List Name) (rw : Rw) (F :
     (h : rw.isKeep1 child) : evalRw op P rw F = (op (F.select child)).select P := by
   obtain ⟨h1, h2, h3⟩ := h
   simp [evalRw, h1, h2, h3, Sel.toList]
+
+theorem evalRw_keep (op : Frame γ → Frame γ) (P : List Name) (s : Sel) (F : Frame γ) :
+    evalRw op P { childs := [some s], keep := true } F = (op (F.select s.toList)).select P := rfl
+
+theorem evalRw_nokeep (op : Frame γ → Frame γ) (P : List Name) (s : Sel) (F : Frame γ) :
+    evalRw op P { childs := [some s], keep := false } F = op (F.select s.toList) := rfl
+
+/-- the two shapes of a `plain` rewrite -/
+theorem plain_cases {frame : List Name} {p : Parent} {deps : List Dep} {extra : List Name} {rw : Rw}
+    (h : plain frame p deps extra = some rw) :
+    (plainSel frame (detProj p deps extra) = p.operand ∧
+        rw = { childs := [some (plainSel frame (detProj p deps extra))], keep := false }) ∨
+    (plainSel frame (detProj p deps extra) ≠ p.operand ∧
+        rw = { childs := [some (plainSel frame (detProj p deps extra))], keep := true }) := by
+  obtain ⟨hrw, _⟩ := plain_spec h
+  by_cases he : plainSel frame (detProj p deps extra) = p.operand
+  · left; refine ⟨he, ?_⟩; rw [hrw]; simp [he]
+  · right; refine ⟨he, ?_⟩; rw [hrw]; simp [he]
 
 /-! ### keyed operators -/
 
@@ -95,20 +114,33 @@ theorem relabel_values (R : RelabelOp γ) (F : Frame γ) (child : List Name)
 
 /-! ### column-wise binary operators -/
 
-theorem binop_values (B : BinOp γ) (X Y : Frame γ) (cx cy : List Name) (c : Name)
-    (hx : cx.contains c = X.cols.contains c) (hy : cy.contains c = Y.cols.contains c) :
-    (B.op (X.select cx) (Y.select cy)).val c = (B.op X Y).val c := by
-  rw [B.op_val, B.op_val]
-  simp only [select_cols, hx, hy]
+/-- an optional projection of an input -/
+def selOpt (o : Option Sel) (F : Frame γ) : Frame γ :=
+  match o with
+  | some s => F.select s.toList
+  | none => F
+
+@[simp] theorem selOpt_many (cs : List Name) (F : Frame γ) : selOpt (some (.many cs)) F = F.select cs := rfl
+@[simp] theorem selOpt_none (F : Frame γ) : selOpt none F = F := rfl
+
+theorem binop_values' (B : BinOp γ) (X Y X' Y' : Frame γ) (c : Name)
+    (hx : X'.cols.contains c = X.cols.contains c) (hxv : X.cols.contains c = true → X'.val c = X.val c)
+    (hy : Y'.cols.contains c = Y.cols.contains c) (hyv : Y.cols.contains c = true → Y'.val c = Y.val c) :
+    (B.op X' Y').val c = (B.op X Y).val c := by
+  rw [B.op_val, B.op_val, hx, hy]
   congr 1
   · by_cases h : X.cols.contains c = true
-    · rw [if_pos h, if_pos h]
-      exact select_val_mem (List.contains_iff_mem.mp (hx ▸ h))
+    · rw [if_pos h, if_pos h]; exact hxv h
     · rw [if_neg h, if_neg h]
   · by_cases h : Y.cols.contains c = true
-    · rw [if_pos h, if_pos h]
-      exact select_val_mem (List.contains_iff_mem.mp (hy ▸ h))
+    · rw [if_pos h, if_pos h]; exact hyv h
     · rw [if_neg h, if_neg h]
+
+theorem binop_values (B : BinOp γ) (X Y : Frame γ) (cx cy : List Name) (c : Name)
+    (hx : cx.contains c = X.cols.contains c) (hy : cy.contains c = Y.cols.contains c) :
+    (B.op (X.select cx) (Y.select cy)).val c = (B.op X Y).val c :=
+  binop_values' B X Y _ _ c hx (fun h => select_val_mem (List.contains_iff_mem.mp (hx ▸ h)))
+    hy (fun h => select_val_mem (List.contains_iff_mem.mp (hy ▸ h)))
 
 theorem filter_contains_of_pred {l : List Name} {pred : Name → Bool} {c : Name} (h : pred c = true) :
     (l.filter pred).contains c = l.contains c := by
